@@ -642,11 +642,15 @@ func (p *parser) summarizeOperator(pipe, keyword Token) (*SummarizeOperator, err
 		By:      nullSpan(),
 	}
 
+	// trailingComma is true while the last thing read is a comma:
+	// only 'by' may follow it.
+	trailingComma := false
 	for {
 		col, err := p.summarizeColumn()
 		if isNotFound(err) {
 			break
 		}
+		trailingComma = false
 		if col != nil {
 			op.Cols = append(op.Cols, col)
 		}
@@ -662,11 +666,12 @@ func (p *parser) summarizeOperator(pipe, keyword Token) (*SummarizeOperator, err
 			p.prev()
 			break
 		}
+		trailingComma = true
 	}
 
 	sep, ok := p.next()
 	if !ok {
-		if len(op.Cols) == 0 {
+		if len(op.Cols) == 0 || trailingComma {
 			return op, &parseError{
 				source: p.source,
 				span:   sep.Span,
@@ -677,7 +682,7 @@ func (p *parser) summarizeOperator(pipe, keyword Token) (*SummarizeOperator, err
 	}
 	if sep.Kind != TokenBy {
 		p.prev()
-		if len(op.Cols) == 0 {
+		if len(op.Cols) == 0 || trailingComma {
 			return op, &parseError{
 				source: p.source,
 				span:   sep.Span,
